@@ -55,7 +55,12 @@ type Call struct {
 	// Transport bytes accepted / transport ops before and after the call.
 	WroteBefore, WroteAfter int
 	OpsBefore, OpsAfter     int
+	WOpsBefore, WOpsAfter   int // write-side transport operations (SetWriteDeadline/SetDeadline/Write)
 	Msg                     int // index into Sent, -1 if none
+	// Deadline is the deadline every frame written during this call must be
+	// written under: the connection's write deadline at the time of the call,
+	// or the argument of WriteControl.
+	Deadline time.Time
 }
 
 // Sent is an API-level message the program asked the connection to send.
@@ -122,12 +127,18 @@ type wexec struct {
 	open      io.WriteCloser
 	openMsg   int
 	stopOnErr bool
+	ctlDl     *time.Time // deadline argument of the WriteControl about to be called
 }
 
 func (x *wexec) call(step, part int, api string, bad bool, msg int, f func() error) error {
-	wb, ob := len(x.tr.Wrote), len(x.tr.Log)
+	wb, ob, wo := len(x.tr.Wrote), len(x.tr.Log), x.tr.WriteOps()
+	dl := x.deadline
+	if x.ctlDl != nil {
+		dl = *x.ctlDl
+		x.ctlDl = nil
+	}
 	err := f()
-	x.tw.Calls = append(x.tw.Calls, Call{Step: step, Part: part, API: api, Err: err, Bad: bad, WroteBefore: wb, WroteAfter: len(x.tr.Wrote), OpsBefore: ob, OpsAfter: len(x.tr.Log), Msg: msg})
+	x.tw.Calls = append(x.tw.Calls, Call{Step: step, Part: part, API: api, Err: err, Bad: bad, WroteBefore: wb, WroteAfter: len(x.tr.Wrote), OpsBefore: ob, OpsAfter: len(x.tr.Log), WOpsBefore: wo, WOpsAfter: x.tr.WriteOps(), Msg: msg, Deadline: dl})
 	if msg >= 0 && err != nil {
 		x.tw.Sent[msg].Reported = false
 	}
@@ -224,6 +235,7 @@ func (x *wexec) step(si int, s WStep) {
 		m := x.newSent(s.MT, data, si, false)
 		dl := x.ctlDeadline(s.Deadline)
 		x.tw.Sent[m].Deadline = dl
+		x.ctlDl = &dl
 		x.call(si, 0, "WriteControl", false, m, func() error { return c.WriteControl(s.MT, data, dl) })
 		x.endSent(m)
 	case "enablecomp":
@@ -272,6 +284,7 @@ func (x *wexec) writer(si int, s WStep, bad bool) {
 			cd := p.Data.Bytes()
 			cm := x.newSent(p.MT, cd, si, false)
 			x.tw.Sent[cm].Deadline = time.Time{}
+			x.ctlDl = &time.Time{}
 			x.call(si, pi+1, "WriteControl", false, cm, func() error { return c.WriteControl(p.MT, cd, time.Time{}) })
 			x.endSent(cm)
 			continue
@@ -348,6 +361,7 @@ func (x *wexec) bad(si int, s WStep) {
 	data := s.Data.Bytes()
 	switch s.Via {
 	case "control":
+		x.ctlDl = &time.Time{}
 		x.call(si, 0, "WriteControl", true, -1, func() error { return c.WriteControl(s.MT, data, time.Time{}) })
 	case "prepared":
 		x.call(si, 0, "NewPreparedMessage", true, -1, func() error {
